@@ -86,7 +86,7 @@ Proof.
       * exists R'. reflexivity.
 Qed.
 
-Definition ra_eq : forall l,
+Lemma ra_eq : forall l,
   read_account l = let '(w, r) := span is_word_char l in
                    match w with
                    | [] => None
